@@ -15,6 +15,8 @@ import (
 	"google.golang.org/grpc/codes"
 	"google.golang.org/grpc/status"
 
+	"github.com/openfga/openfga/internal/check"
+	"github.com/openfga/openfga/internal/modelgraph"
 	"github.com/openfga/openfga/internal/telemetry"
 	"github.com/openfga/openfga/internal/validation"
 	"github.com/openfga/openfga/internal/verifharness/lib/rec"
@@ -22,6 +24,7 @@ import (
 	"github.com/openfga/openfga/pkg/server"
 	"github.com/openfga/openfga/pkg/storage"
 	"github.com/openfga/openfga/pkg/storage/memory"
+	"github.com/openfga/openfga/pkg/tuple"
 )
 
 // ---------------------------------------------------------------------------------------------
@@ -485,6 +488,21 @@ func runAPICase(ctx context.Context, w *rec.Writer, fm *farm, s *scen.Scenario, 
 		}
 	}
 	w.Stat("tuples_valid_for_write", len(valid))
+	// which of them the weighted-graph engine's own validation of contextual tuples refuses
+	var wgRejects []string
+	wgRejectIdx := map[int]bool{}
+	if mg, err := modelgraph.New(full.Model); err == nil {
+		for _, i := range valid {
+			t := s.Tuples[i]
+			_, err := check.NewRequest(check.RequestParams{StoreID: full.StoreID, Model: mg,
+				TupleKey: tuple.NewTupleKey(t.Obj, t.Rel, t.User), ContextualTuples: []*openfgav1.TupleKey{t.Proto()}, Context: scen.Struct(s.ReqCtx)})
+			if err != nil {
+				wgRejects = append(wgRejects, t.Key()+condSuffix(t))
+				wgRejectIdx[i] = true
+			}
+		}
+	}
+	w.Stat("tuples_valid_for_write_refused_by_wg", len(wgRejects))
 	w.Stat("tuples_only_storable", len(invalid))
 	if len(valid) > 100 {
 		valid = valid[:100] // contextual-tuple limit of the API
@@ -856,6 +874,9 @@ func runAPICase(ctx context.Context, w *rec.Writer, fm *farm, s *scen.Scenario, 
 			rec.LI(m.ctxIdx), rec.L(avs...)))
 	}
 	d := map[string]any{"kind": "api", "seed": seed, "scenario": s, "text": s.String(), "cuts": cuts}
+	if len(wgRejects) > 0 {
+		d["refused_by_weighted_graph_validation"] = wgRejects
+	}
 	if len(mms) > 0 {
 		d["mismatches"] = mms
 	} else if len(perm) == 0 {
